@@ -330,6 +330,29 @@ def check_source(src, name="f"):
         if s2_ not in seen:
             seen.add(s2_)
             fails.append({"kind": "graph", "signature": s2_, "detail": repr(err)[:300]})
+    # a decorated function: the graph must describe the bytecode of the function that was passed in
+    import functools
+
+    def _deco(g):
+        @functools.wraps(g)
+        def wrapper(*a, **k):
+            if a:
+                return g(*a, **k)
+            return None
+        return wrapper
+
+    w = _deco(fn)
+    orc_w, end_w = oracle_of_function(w)
+    try:
+        flow_w = ByteFlow.from_bytecode(w)
+        errs_w = check_graph(orc_w, flow_w.scfg.graph, end_w)
+    except Exception as e:
+        errs_w = [("wrapped-function-exception", type(e).__name__)]
+    for err in errs_w:
+        s3_ = "function:wrapped:" + sig(err)
+        if s3_ not in seen:
+            seen.add(s3_)
+            fails.append({"kind": "graph", "signature": s3_, "detail": repr(err)[:300]})
     return fails, "ok"
 
 
